@@ -179,3 +179,105 @@ class is_keyword_full:
                'result[0] == (GET(FIRST, value.upper()) if FIRST < NDICT else tokens.Name)']
     raises = []
     serves = ['C14']
+
+
+# ----------------------------------------------------------------------------- input normalisation (C19)
+
+DECODE = z3.Function('decode', z3.IntSort(), z3.StringSort(), z3.StringSort())      # bytes id x codec name -> text
+DECODABLE = z3.Function('decodable', z3.IntSort(), z3.StringSort(), z3.BoolSort())
+
+
+def make_bytes(ex, st):
+    """an arbitrary bytes object: decode(codec) is an uninterpreted partial function of (bytes, codec name);
+    it raises UnicodeDecodeError (or LookupError for an unknown codec) where it is undefined; Latin-1 is total"""
+    bid = z3.Int('bytes_id')
+
+    def decode(ex_, self_, args, kw, s):
+        lib('bytes.decode(codec): uninterpreted partial function; latin-1 decodes every byte string')
+        codec = args[0]
+        zc = ex_.z_str(codec)
+        ok = DECODABLE(bid, zc)
+        s.assume(DECODABLE(bid, z3.StringVal('latin-1')))
+        res = []
+        for s2, b in ex_.decide(s, ok):
+            if b:
+                res.append((s2, SStr(DECODE(bid, zc))))
+            else:
+                s3 = s2.fork()
+                ex_.raise_on(s2, 'UnicodeDecodeError', 'undecodable')
+                if not isinstance(codec, str):
+                    ex_.raise_on(s3, 'LookupError', 'unknown codec')
+        return res
+    st.ghost['DEC'] = Func('spec.DEC', model=lambda e, s_, a, k, s: [(s, SStr(DECODE(bid, e.z_str(a[0]))))])
+    st.ghost['DECODABLE'] = Func('spec.DECODABLE', model=lambda e, s_, a, k, s: [(s, SBool(DECODABLE(bid, e.z_str(a[0]))))])
+    return Opaque('bytes', {'classes': [bytes], 'methods': {'decode': decode}})
+
+
+def make_stream_input(ex, st):
+    from io import StringIO
+    content = z3.String('stream_content')
+
+    def read(ex_, self_, args, kw, s):
+        lib('TextIOBase.read(): returns the whole remaining text of the stream')
+        return [(s, SStr(content))]
+    st.ghost['CONTENT'] = SStr(content)
+    return Opaque('stream', {'classes': [StringIO], 'methods': {'read': read}})
+
+
+_LOOPS = get_tokens_str.loops
+
+
+@contract('sqlparse.lexer.Lexer.get_tokens', case='bytes with encoding')
+class get_tokens_bytes_enc:
+    """bytes + encoding argument: decoded exactly once with that codec, then scanned losslessly"""
+    params = {'self': make_lexer(True), 'text': make_bytes, 'encoding': 'str'}
+    requires = ['len(encoding) >= 1']
+    ghost = {'ACC': "''"}
+    on_yield = get_tokens_str.on_yield
+    yield_asserts = get_tokens_str.yield_asserts
+    loops = _LOOPS
+    ensures = ['ACC == DEC(encoding)']
+    raises = ['UnicodeDecodeError', 'LookupError']
+    serves = ['C19', 'C01']
+
+
+@contract('sqlparse.lexer.Lexer.get_tokens', case='bytes without encoding')
+class get_tokens_bytes_noenc:
+    """bytes without encoding: UTF-8 if the bytes are valid UTF-8, otherwise Latin-1 (as documented); never raises"""
+    params = {'self': make_lexer(True), 'text': make_bytes, 'encoding': 'none'}
+    requires = []
+    ghost = {'ACC': "''"}
+    on_yield = get_tokens_str.on_yield
+    yield_asserts = get_tokens_str.yield_asserts
+    loops = _LOOPS
+    ensures = ["ACC == (DEC('utf-8') if DECODABLE('utf-8') else DEC('latin-1'))"]
+    raises = []
+    serves = ['C19', 'C01']
+
+
+@contract('sqlparse.lexer.Lexer.get_tokens', case='text stream')
+class get_tokens_stream:
+    """a text stream is read once and scanned like the same str"""
+    params = {'self': make_lexer(True), 'text': make_stream_input, 'encoding': lambda ex, st: Opaque('any-encoding')}
+    requires = []
+    ghost = {'ACC': "''"}
+    on_yield = get_tokens_str.on_yield
+    yield_asserts = get_tokens_str.yield_asserts
+    loops = _LOOPS
+    ensures = ['ACC == CONTENT']
+    raises = []
+    serves = ['C19', 'C01']
+
+
+@contract('sqlparse.lexer.Lexer.get_tokens', case='other input')
+class get_tokens_other:
+    """anything else is rejected with TypeError before scanning"""
+    params = {'self': make_lexer(True), 'text': lambda ex, st: Opaque('other-object', {'classes': [object]}),
+              'encoding': lambda ex, st: Opaque('any-encoding')}
+    requires = []
+    ghost = {'ACC': "''"}
+    on_yield = get_tokens_str.on_yield
+    ensures = ['False']          # no normal exit exists
+    no_normal_exit = True
+    raises = ['TypeError']
+    serves = ['C19']
